@@ -382,6 +382,19 @@ def case_eq(ctx, cfg):
             if e is not None or bool(r) != want:
                 ctx.fail("eq:segment", "==", {"s": S.array, "t": T.array}, want, e if e is not None else bool(r))
                 return
+        # segment collections
+        mkS = lambda segs: G.SegmentCollection(G.PointCollection(np.array([list(map(float, a_)) + [1.0] for a_, b_ in segs])), G.PointCollection(np.array([list(map(float, b_)) + [1.0] for a_, b_ in segs])))  # noqa: E731
+        s1, s2, s3 = ((0, 0), (2, 1)), ((1, 1), (1, 4)), ((-1, 2), (3, 0))
+        S1 = mkS([s1, s2, s3])
+        for other, want, tag in ((mkS([s1[::-1], s2, s3[::-1]]), False, "some-elements-reversed"), (mkS([s1[::-1], s2[::-1], s3[::-1]]), True, "all-elements-reversed"), (mkS([s3, s2, s1]), False, "listed-backwards"), (mkS([s1, s2, s3]), True, "same")):
+            r, e = ctx.call(lambda: S1 == other)
+            ctx.trace()
+            ctx.state(("segmentcollection", tag))
+            if tag == "some-elements-reversed":
+                continue  # element-wise equality of a vectorised comparison with mixed orientations is not specified
+            if e is not None or bool(r) != want:
+                ctx.fail(f"eq:segmentcollection:{tag}", "==", {"case": tag}, want, e if e is not None else bool(r))
+                return
     elif kind == "polyhedron":
         C = G.Cuboid(G.Point(0, 0, 0), G.Point(2, 0, 0), G.Point(0, 1, 0), G.Point(0, 0, 3))
         arr = C.array
@@ -418,6 +431,18 @@ def case_eq(ctx, cfg):
             ctx.state(("collections", len(poly)))
             # a collection equals another one iff every element does; here each element is a rotation/reversal, but
             # the same roll must work for all elements in the library's vectorised test -> only judge element-wise
+            # whole collections: equal when every element is the same polygon (each given reversed), different when the
+            # elements are swapped
+            p1 = [tuple(v) for v in poly]
+            p2 = [(x + 5, y - 1) for x, y in poly]
+            mk = lambda lists: G.PolygonCollection(*[G.PointCollection(np.array([list(map(float, l[k])) + [1.0] for l in lists])) for k in range(len(poly))])  # noqa: E731
+            C1, C2, C3 = mk([p1, p2]), mk([p1[::-1], p2[::-1]]), mk([p2, p1])
+            for x, y, want, tag in ((C1, C2, True, "elements-reversed"), (C1, C3, False, "elements-swapped"), (C3, C1, False, "elements-swapped"), (C1, mk([p1, p2]), True, "same")):
+                r, e = ctx.call(lambda: x == y)
+                ctx.trace()
+                if e is not None or bool(r) != want:
+                    ctx.fail(f"eq:polygoncollection:{tag}", "==", {"polygon": poly, "case": tag}, want, e if e is not None else bool(r))
+                    return
             for i in range(len(rots)):
                 r, e = ctx.call(lambda: A[i] == B[i])
                 ctx.trace()
